@@ -911,6 +911,7 @@ package queue
 //@ func (*SQLiteStore).requeueExpiredLeases
 //@   requires conn != nil
 //@   modifies durable, txOpen, txPending
+//@   ensures [stays_in_the_callers_transaction] old(txOpen) ==> txOpen && durable == old(durable) && txPending >= old(txPending)
 //@   calls database/sql.(*Conn).ExecContext requires [C05:expired_leases_are_requeued_as_of_the_store_clock] arg2 == "\nUPDATE queue_items\nSET state = ?, lease_id = NULL, lease_until = NULL, next_run_at = ?, dead_reason = NULL\nWHERE state = ?\n  AND lease_until IS NOT NULL\n  AND lease_until <= ?;\n" && nvarargs == 4 && vararg0 == "queued" && vararg1 == unixNanoOf(now) && vararg2 == "leased" && vararg3 == unixNanoOf(now)
 
 // ---- C14 on the SQLite boundary: by-id mutations (SQL text pinned, parameters proved) ----
@@ -1078,3 +1079,67 @@ package queue
 //@   ensures [C01:nil_with_work_implies_committed] result1 == nil && result0.Succeeded > 0 ==> durable >= old(durable) + 1
 //@   ensures [C01:error_implies_nothing_committed] result1 != nil ==> durable == old(durable)
 //@   ensures [C01:no_transaction_left_open] !txOpen && txPending == 0
+
+// ---- C03/C05 on the SQLite boundary: which messages a dequeue may lease (dynamic statement text and parameters pinned) ----
+// strings.Builder is modelled by its buffer field (a []byte, i.e. a string in this encoding): ASSUMED that WriteString
+// appends and String returns the buffer.
+//@ extern strings.(*Builder).WriteString(b, str) (n, err)
+//@   modifies b.buf
+//@   ensures b.buf == old(b.buf) + str && err == nil
+//@ extern strings.(*Builder).String(b) (out)
+//@   ensures out == b.buf
+//@ func dequeueCandidateIDsTx
+//@   strings theory
+//@   requires conn != nil
+//@   calls database/sql.(*Conn).QueryContext requires [C05:candidates_are_queued_due_messages_of_the_asked_route_oldest_due_first] arg2 == "\nSELECT id\nFROM queue_items\nWHERE state = ?\n  AND next_run_at <= ?" + ite(req.Route != "", " AND route = ?", "") + ite(req.Target != "", " AND target = ?", "") + "\n\tORDER BY next_run_at ASC, received_at ASC\nLIMIT ?;\n"
+//@   calls database/sql.(*Conn).QueryContext requires [C05:candidate_parameters_are_queued_now_and_the_asked_route] len(arg3) == 3 + ite(req.Route != "", 1, 0) + ite(req.Target != "", 1, 0) && arg3[0] == "queued" && arg3[1] == unixNanoOf(now) && (req.Route != "" ==> arg3[2] == req.Route) && (req.Target != "" ==> arg3[2 + ite(req.Route != "", 1, 0)] == req.Target)
+//@   calls database/sql.(*Conn).QueryContext requires [C05:candidate_count_is_capped_at_the_batch] arg3[len(arg3) - 1] == ite(old(batch) <= 0, 1, ite(old(batch) > 100, 100, old(batch)))
+
+//@ extern database/sql.(*Conn).QueryRowContext(conn, ctx, query, args) (row)
+//@ extern database/sql.(*Row).Scan(row, dest) (err)
+//@ func unmarshalStringMap
+//@   trusted
+
+//@ func (*SQLiteStore).dequeueLeaseSingleTx
+//@   requires conn != nil
+//@   calls database/sql.(*Conn).QueryRowContext requires [C03:a_message_is_leased_only_from_queued_with_attempt_plus_one_until_the_given_deadline] arg2 == "\nUPDATE queue_items\nSET state = ?,\n    attempt = attempt + 1,\n    lease_id = ?,\n    lease_until = ?,\n    next_run_at = ?\nWHERE state = ?\n  AND id = ?\nRETURNING id, route, target, received_at, attempt, payload, headers_json, trace_json, schema_version;\n" && nvarargs == 6 && vararg0 == "leased" && vararg2 == unixNanoOf(leaseUntil) && vararg3 == unixNanoOf(leaseUntil) && vararg4 == "queued" && vararg5 == id
+//@   ensures [C03:the_returned_lease_is_the_one_written] result1 ==> result0.State == StateLeased && result0.LeaseUntil == leaseUntil && result0.NextRunAt == leaseUntil && result2 == nil
+
+//@ func (*SQLiteStore).dequeueCandidateSingleTx
+//@   strings theory
+//@   requires conn != nil
+//@   calls database/sql.(*Conn).QueryRowContext requires [C05:the_single_candidate_is_the_oldest_due_queued_message_of_the_asked_route] arg2 == "\nWITH candidate AS (\n  SELECT id\n  FROM queue_items\n  WHERE state = ?\n    AND next_run_at <= ?" + ite(req.Route != "", " AND route = ?", "") + ite(req.Target != "", " AND target = ?", "") + "\n  ORDER BY next_run_at ASC, received_at ASC\n  LIMIT 1\n)\nUPDATE queue_items\nSET state = ?,\n    attempt = attempt + 1,\n    lease_id = ?,\n    lease_until = ?,\n    next_run_at = ?\nWHERE id = (SELECT id FROM candidate)\nRETURNING id, route, target, received_at, attempt, payload, headers_json, trace_json, schema_version;"
+//@   calls database/sql.(*Conn).QueryRowContext requires [C03:the_single_candidate_is_leased_from_queued_until_the_given_deadline] let k := 2 + ite(req.Route != "", 1, 0) + ite(req.Target != "", 1, 0) :: len(arg3) == k + 4 && arg3[0] == "queued" && arg3[1] == unixNanoOf(now) && (req.Route != "" ==> arg3[2] == req.Route) && (req.Target != "" ==> arg3[2 + ite(req.Route != "", 1, 0)] == req.Target) && arg3[k] == "leased" && arg3[k + 2] == unixNanoOf(leaseUntil) && arg3[k + 3] == unixNanoOf(leaseUntil)
+//@   ensures [C03:the_returned_lease_is_the_one_written] result1 ==> result0.State == StateLeased && result0.LeaseUntil == leaseUntil && result0.NextRunAt == leaseUntil && result2 == nil
+
+//@ func (*SQLiteStore).dequeueLeaseByIDsTx
+//@   requires conn != nil
+//@   loop 2 invariant [ids_follow_the_fixed_parameters] rangeindex < len(ids) && len(args) == 4 + rangeindex + 1 && args[0] == "leased" && args[1] == unixNanoOf(leaseUntil) && args[2] == unixNanoOf(leaseUntil) && args[3] == "queued" && forall j int :: 0 <= j && j <= rangeindex ==> args[4 + j] == ids[j]
+//@   calls database/sql.(*Conn).QueryContext requires [C03:messages_are_leased_only_from_queued_with_attempt_plus_one_until_the_given_deadline] arg2 == "\nUPDATE queue_items\nSET state = ?,\n    attempt = attempt + 1,\n    lease_id = 'lease_' || lower(hex(randomblob(8))),\n    lease_until = ?,\n    next_run_at = ?\nWHERE state = ?\n  AND id IN (" + ext("strings.TrimRight", ext("strings.Repeat", "?,", len(ids)), ",") + ")\nRETURNING id, route, target, received_at, attempt, payload, headers_json, trace_json, schema_version, lease_id;" && len(arg3) == 4 + len(ids) && arg3[0] == "leased" && arg3[1] == unixNanoOf(leaseUntil) && arg3[2] == unixNanoOf(leaseUntil) && arg3[3] == "queued" && forall j int :: 0 <= j && j < len(ids) ==> arg3[4 + j] == ids[j]
+
+// dequeueOnce: sweep, candidate selection and leasing inside one IMMEDIATE transaction; messages are handed out only
+// after the COMMIT that makes their leases durable returned nil
+//@ func (*SQLiteStore).dequeueOnce$1
+//@   requires s != nil && conn != nil
+//@   modifies durable, txOpen, txPending
+//@   ensures [C01:rollback_unless_committed] (committed ==> durable == old(durable) && txOpen == old(txOpen) && txPending == old(txPending)) && (!committed ==> durable == old(durable) && txPending == 0 && !txOpen)
+//@ func (*SQLiteStore).dequeueOnce
+//@   requires s != nil && s.db != nil && !txOpen && txPending == 0
+//@   modifies durable, txOpen, txPending, casSwapped
+//@   calls requeueExpiredLeases requires [C05:the_sweep_runs_inside_the_dequeue_transaction_as_of_its_clock] txOpen && arg3 == ite(req.Now != 0, req.Now, local(now))
+//@   calls dequeueCandidateSingleTx requires [C03:the_lease_deadline_is_now_plus_the_ttl] txOpen && arg3.Route == req.Route && arg3.Target == req.Target && arg4 == local(now) && arg5 == local(now) + leaseTTL
+//@   calls dequeueCandidateIDsTx requires [C05:candidates_are_taken_as_of_now_up_to_the_batch] txOpen && arg2.Route == req.Route && arg2.Target == req.Target && arg3 == local(now) && arg4 == batch
+//@   calls dequeueLeaseSingleTx requires [C03:the_lease_deadline_is_now_plus_the_ttl] txOpen && arg4 == local(now) + leaseTTL
+//@   calls dequeueLeaseByIDsTx requires [C03:the_lease_deadline_is_now_plus_the_ttl] txOpen && arg4 == local(now) + leaseTTL
+//@   ensures [C03:messages_are_handed_out_only_after_their_leases_committed] result1 == nil && len(result0.Items) > 0 ==> !txOpen && txPending == 0 && durable >= old(durable)
+//@   ensures [C03:nothing_is_handed_out_on_error] result1 != nil ==> len(result0.Items) == 0 && durable == old(durable)
+//@   ensures [C01:no_transaction_left_open] !txOpen && txPending == 0
+
+//@ func (*SQLiteStore).waitCh
+//@   trusted
+//@ func (*SQLiteStore).Dequeue
+//@   requires s != nil && s.db != nil && !txOpen && txPending == 0
+//@   modifies *
+//@   preserves SQLiteStore.*
+//@   loop 1 invariant [between_attempts_no_transaction_is_open] !txOpen && txPending == 0 && batch == ite(req.Batch <= 0, 1, ite(req.Batch > 100, 100, req.Batch)) && leaseTTL == ite(req.LeaseTTL <= 0, 30000000000, req.LeaseTTL)
+//@   calls dequeueOnce requires [C05:the_batch_is_clamped_to_1_100_and_the_lease_ttl_defaults_to_30s] arg1.Route == req.Route && arg1.Target == req.Target && arg1.Now == req.Now && arg2 == ite(req.Batch <= 0, 1, ite(req.Batch > 100, 100, req.Batch)) && arg3 == ite(req.LeaseTTL <= 0, 30000000000, req.LeaseTTL)
